@@ -6,12 +6,16 @@
      BOOK.get_unchecked(i), i-1, i-2        C07_book_indices_in_range      (every node reachable from the root)
      parse_fen: File::from_u8(..).unwrap(), u8/u16 arithmetic   C07_parser_total, C07_parser_no_overflow
      MoveGen: pop_unchecked on the selected entry, promotion cursor   C07_iterator_invariant
-   (move-list capacity 18, king presence, single checker, rights index < 16, clock saturation: proofs/SiteFacts.v,
-    pinned below when delivered) *)
+     movelist.push_unchecked (ArrayVec<_,18>)   C07_move_list_capacity  (placement invariant, <= 16 men, own king present;
+                                                 the bound is FALSE without a king: C07_capacity_needs_king)
+     king_sq -> pop_unchecked               C07_king_present
+     check_mask -> pop_unchecked            C07_single_checker
+     CastleRights::to_index                 C07_rights_index   (after any make-move, unconditionally < 16)
+     u16 clocks                             C07_clocks_saturate *)
 From Coq Require Import NArith List Bool.
 From Chess Require Import base.Bits base.Types base.BitBoard geom.Geometry geom.Lookup model.Board model.MoveGen model.Fen model.Book
   gen.T_rook_moves gen.T_bishop_moves gen.T_book spec.IterSpec
-  proofs.MagicSweep proofs.BookFacts proofs.FenFacts proofs.IterFacts.
+  proofs.MagicSweep proofs.BookFacts proofs.FenFacts proofs.IterFacts model.Apply proofs.SiteFacts.
 Import ListNotations.
 Local Open Scope N_scope.
 
@@ -41,3 +45,28 @@ Print Assumptions C07_iterator_invariant.
 Theorem C07_iterator_invariant_kept : forall g m g', wf g -> mg_next g = (Some m, g') -> wf g'.
 Proof. intros g m g' H1 H2. exact (proj2 (proj2 (proj2 (next_sound g m g' H1 H2)))). Qed.
 Print Assumptions C07_iterator_invariant_kept.
+
+Theorem C07_move_list_capacity : forall b mask, SiteFacts.Part b -> has_kings b = true ->
+  count (colors b (b_turn b)) <= 16 -> (length (collect_moves b mask) <= 18)%nat.
+Proof. exact collect_moves_capacity_has_kings. Qed.
+Print Assumptions C07_move_list_capacity.
+Theorem C07_capacity_needs_king : ~ collect_moves_capacity_statement.
+Proof. exact collect_moves_capacity_statement_false. Qed.
+Print Assumptions C07_capacity_needs_king.
+Theorem C07_king_present : forall b c, wf64 (colors b c) -> has_kings b = true ->
+  king_sq b c < 64 /\ mem (colors b c) (king_sq b c) = true /\ mem (b_king b) (king_sq b c) = true.
+Proof. exact king_sq_valid_has_kings. Qed.
+Print Assumptions C07_king_present.
+Theorem C07_single_checker : forall b, count (b_checkers b) = 1 -> wf64 (b_checkers b) ->
+  tz64 (b_checkers b) < 64 /\ b_checkers b = bit (tz64 (b_checkers b)).
+Proof. exact check_mask_single. Qed.
+Print Assumptions C07_single_checker.
+Theorem C07_rights_index : forall b m, b_rights (apply b m) < 16.
+Proof. exact rights_after_apply. Qed.
+Print Assumptions C07_rights_index.
+Theorem C07_clocks_saturate : forall b m, b_half (apply b m) <= 65535 /\ b_full (apply b m) <= 65535.
+Proof. exact clocks_after_apply. Qed.
+Print Assumptions C07_clocks_saturate.
+Theorem C07_iterator_pop_site : forall g e, nth_error (g_moves g) (cursor g) = Some e -> bb_and (e_moves e) (g_mask g) <> 0.
+Proof. exact next_site_nonempty. Qed.
+Print Assumptions C07_iterator_pop_site.
